@@ -5,6 +5,9 @@
 (*   New       a = timeout T in ms, b = slack in ms, s = strategy, id = N (count strategy)  *)
 (*   enter     id (0 = PostStart), t = when Receive was entered, a = the runtime's stamp    *)
 (*   exit      id, t                                                                        *)
+(*   tellstart / tell   a Tell of message id (0 = control message, s = "pause" / "resume")   *)
+(*             starts / returned (a = 1: accepted)                                          *)
+(*   reinstate the parent's Reinstate returned                                              *)
 (*   register  the actor was (re-)registered with the passivation manager                   *)
 (*   pop       the manager took the actor off its schedule (witness classification only)    *)
 (*   decision  tryPassivation holds stopLocker and goes on to stop the actor;               *)
@@ -21,11 +24,15 @@ VARIABLES l, tms, slack, strat, nmax,
           count,       \* user messages handled since the last registration
           decT,        \* time of the passivation decision, -1 = none
           decCount,    \* user messages whose handler had been entered by then (since the registration)
+          pauseSt,     \* 0 not paused, 1 a PausePassivation was accepted, 2 ... and a message told after it has reached its
+                       \* handler (system messages are served first: the pause has been processed); any resume / reinstate
+                       \* attempt or re-registration clears it
+          afterPause,  \* ids of messages whose Tell started after the pause had been accepted
           psCount
 
-vars == <<l, tms, slack, strat, nmax, lastEnter, count, decT, decCount, psCount>>
+vars == <<l, tms, slack, strat, nmax, lastEnter, count, decT, decCount, pauseSt, afterPause, psCount>>
 
-Init == l = 1 /\ tms = 0 /\ slack = 0 /\ strat = "" /\ nmax = 0 /\ lastEnter = -1 /\ count = 0 /\ decT = -1 /\ decCount = 0 /\ psCount = 0
+Init == l = 1 /\ tms = 0 /\ slack = 0 /\ strat = "" /\ nmax = 0 /\ lastEnter = -1 /\ count = 0 /\ decT = -1 /\ decCount = 0 /\ pauseSt = 0 /\ afterPause = {} /\ psCount = 0
 
 Check(cond, what) == IF cond THEN TRUE ELSE PrintT(<<"MISMATCH", "C12", l, what>>)
 Max(a, b) == IF a > b THEN a ELSE b
@@ -37,7 +44,7 @@ Step ==
   /\ LET e == Trace[l] IN
      CASE e.ev = "New" ->
             /\ tms' = e.a /\ slack' = e.b /\ strat' = e.s /\ nmax' = e.id
-            /\ lastEnter' = -1 /\ count' = 0 /\ decT' = -1 /\ decCount' = 0 /\ psCount' = 0
+            /\ lastEnter' = -1 /\ count' = 0 /\ decT' = -1 /\ decCount' = 0 /\ pauseSt' = 0 /\ afterPause' = {} /\ psCount' = 0
        [] e.ev = "enter" ->
             \* a handler that had been entered before the decision but is logged after it
             /\ Check(~(strat = "time" /\ decT > e.t /\ decT - e.t < tms - slack),
@@ -46,27 +53,40 @@ Step ==
             /\ count' = IF e.id = 0 THEN count ELSE count + 1
             \* entered before the decision, logged after it: it counts for the decision
             /\ decCount' = IF e.id # 0 /\ decT >= e.t THEN decCount + 1 ELSE decCount
-            /\ UNCHANGED <<cfg, decT, psCount>>
+            /\ pauseSt' = IF pauseSt = 1 /\ e.id \in afterPause THEN 2 ELSE pauseSt
+            /\ UNCHANGED <<cfg, decT, afterPause, psCount>>
        [] e.ev = "register" ->
-            /\ count' = 0 /\ UNCHANGED <<cfg, lastEnter, decT, decCount, psCount>>
+            /\ count' = 0 /\ pauseSt' = 0 /\ afterPause' = {}
+            /\ UNCHANGED <<cfg, lastEnter, decT, decCount, psCount>>
+       [] e.ev = "tellstart" ->
+            /\ pauseSt' = IF e.s = "resume" THEN 0 ELSE pauseSt
+            /\ afterPause' = IF e.s = "resume" THEN {} ELSE IF pauseSt >= 1 /\ e.id # 0 THEN afterPause \cup {e.id} ELSE afterPause
+            /\ UNCHANGED <<cfg, lastEnter, count, decT, decCount, psCount>>
+       [] e.ev = "tell" /\ e.s = "pause" ->
+            /\ pauseSt' = IF e.a = 1 /\ pauseSt = 0 THEN 1 ELSE pauseSt
+            /\ UNCHANGED <<cfg, lastEnter, count, decT, decCount, afterPause, psCount>>
+       [] e.ev = "reinstate" ->
+            /\ pauseSt' = 0 /\ afterPause' = {}
+            /\ UNCHANGED <<cfg, lastEnter, count, decT, decCount, psCount>>
        [] e.ev = "decision" ->
             /\ Check(strat # "long", "a long-lived actor was passivated")
             /\ Check(strat # "time" \/ lastEnter < 0 \/ lastEnter > e.t \/ e.t - lastEnter >= tms - slack,
                      "passivated although a message was handled within the last T")
             /\ Check(e.a = 1, "passivation decided while paused / suspended / stopping / not running")
+            /\ Check(pauseSt # 2, "passivated although a PausePassivation had been processed and no ResumePassivation sent")
             /\ decT' = e.t /\ decCount' = count       \* judged at End, when every handler entry has been logged
-            /\ UNCHANGED <<cfg, lastEnter, count, psCount>>
+            /\ UNCHANGED <<cfg, lastEnter, count, pauseSt, afterPause, psCount>>
        [] e.ev = "psenter" ->
             /\ Check(psCount = 0, "PostStop ran twice")
             /\ psCount' = psCount + 1
-            /\ UNCHANGED <<cfg, lastEnter, count, decT, decCount>>
+            /\ UNCHANGED <<cfg, lastEnter, count, decT, decCount, pauseSt, afterPause>>
        [] e.ev = "End" ->
             /\ Check(decT < 0 \/ e.a = 0, "passivated actor is still running")
             /\ Check(decT < 0 \/ e.b = 1, "PostStop of a passivated actor did not run exactly once")
             /\ Check(decT < 0 \/ strat # "count" \/ decCount >= nmax,
                      "message-count strategy passivated before N messages since registration")
-            /\ UNCHANGED <<cfg, lastEnter, count, decT, decCount, psCount>>
-       [] OTHER -> UNCHANGED <<cfg, lastEnter, count, decT, decCount, psCount>>
+            /\ UNCHANGED <<cfg, lastEnter, count, decT, decCount, pauseSt, afterPause, psCount>>
+       [] OTHER -> UNCHANGED <<cfg, lastEnter, count, decT, decCount, pauseSt, afterPause, psCount>>
 
 Spec == Init /\ [][Step]_vars
 =============================================================================
